@@ -106,7 +106,7 @@ pub fn bpf_trace_printf(unused1: u64, unused2: u64, arg3: u64, arg4: u64, arg5: 
         if x == 0 {
             1
         } else {
-            (x as f64).log(16.0).floor() as u64 + 1
+            (64 - u64::leading_zeros(x) as u64).div_ceil(4)
         }
     };
     "bpf_trace_printf: 0x, 0x, 0x\n".len() as u64 + size_arg(arg3) + size_arg(arg4) + size_arg(arg5)
